@@ -55,20 +55,25 @@ Definition set_find (t : T) (l : list T) : option T :=
   | [] => None
   end.
 
-(** returns (inserted?, new set) *)
-Definition set_insert (t : T) (l : list T) : bool * list T :=
+(** std::set::insert: Inserted l' | Blocked a e b  (the set is a ++ e :: b and e, the element before the insertion
+    position, is not less than t: the iterator returned by insert points to e) *)
+Inductive ins_res : Type := Inserted (l : list T) | Blocked (a : list T) (e : T) (b : list T).
+Definition set_insert_res (t : T) (l : list T) : ins_res :=
   let (a, b) := split_upper t l in
   match rev a with
-  | [] => (true, t :: b)
-  | pred :: _ => if comp pred t then (true, a ++ t :: b) else (false, l)
+  | [] => Inserted (t :: b)
+  | pred :: ra => if comp pred t then Inserted (a ++ t :: b) else Blocked (rev ra) pred b
   end.
+(** returns (inserted?, new set) *)
+Definition set_insert (t : T) (l : list T) : bool * list T :=
+  match set_insert_res t l with Inserted l' => (true, l') | Blocked _ _ _ => (false, l) end.
 
 Definition set_erase (k : T) (l : list T) : list T :=
   let (a, b) := split_lower k l in a ++ snd (split_upper k b).
 
-(** TermList<T>::add_term (TermList.h:48-59); the boolean records a refused insertion
-    (the C++ ignores the return value of std::set::insert) *)
-Definition add_term (t : T) (l : list T) : bool * list T :=
+(** TermList<T>::add_term as it is in the repository today (TermList.h:48-59); the boolean records a refused insertion
+    (the C++ ignores the return value of std::set::insert): the term [sum] is then LOST *)
+Definition add_term_plain (t : T) (l : list T) : bool * list T :=
   match set_find t l with
   | None => set_insert t l                                  (* TermList.h:50-51 *)
   | Some e =>
@@ -77,6 +82,29 @@ Definition add_term (t : T) (l : list T) : bool * list T :=
     if negl sum (length l' + 1) then (true, l')             (* TermList.h:56 *)
     else set_insert sum l'                                  (* TermList.h:57 *)
   end.
+
+(** the repaired add_term (proposed/fix-termlist-refused-insert.diff):
+      sum = term; for(;;) { res = data.insert(sum); if(res.second) return;
+                            reduced = *res.first; reduced += sum; data.erase(res.first);
+                            if(is_negligible(reduced, data.size()+1)) return; sum = reduced; }
+    every retry removes one stored term, so length l + 1 rounds suffice *)
+Fixpoint add_term_loop (fuel : nat) (sum : T) (l : list T) : bool * list T :=
+  match set_insert_res sum l with
+  | Inserted l' => (true, l')
+  | Blocked a e b =>
+    let reduced := plus e sum in
+    let l' := a ++ b in
+    if negl reduced (length l' + 1) then (true, l')
+    else match fuel with
+         | O => (false, l')           (* not reachable with fuel = length l *)
+         | S f => add_term_loop f reduced l'
+         end
+  end.
+
+(** [retry] selects the shape the source has (generated: Gen_Multiterm.add_term_retries) *)
+Definition add_term_gen (retry : bool) (t : T) (l : list T) : bool * list T :=
+  if retry then add_term_loop (length l) t l else add_term_plain t l.
+Definition add_term := add_term_gen add_term_retries.
 
 (** a sequence of add_term calls; counts the refused insertions *)
 Fixpoint add_terms (ts : list T) (st : nat * list T) : nat * list T :=
@@ -451,22 +479,26 @@ Fixpoint run_parts (g : nat) (tl : tols) (clear fill : bool) (freqs : list (K * 
 
 (** TwoParticleGF::compute(clear, freqs, comm) on a single rank (TwoParticleGF.cpp:153-189): (returned table, new state).
     exStatusMismatch is Throws 2. `&m_data[0]` on an empty vector (cpp:176) is undefined behaviour: OOB.
-    [fixed] = the minimal repair (proposed/fix-chi-vanishing-table.diff): the table is sized before the
-    `if (!Vanishing)` test, and the reduction is skipped for an empty table. *)
-Definition gf_compute (fixed : bool) (g : nat) (tl : tols) (clear : bool) (freqs : list (K * K * K)) (s : gf_st)
+    The two booleans say which shape the source has (generated: Gen_Multiterm.compute_sizes_table_before_vanishing_test,
+    compute_guards_empty_reduce); both false = the repository today, true = the minimal repairs
+    proposed/fix-chi-vanishing-table.diff (the table is sized before the `if (!Vanishing)` test) and
+    proposed/fix-chi-empty-freqs-ub.diff (the reduction is skipped for an empty table). *)
+Definition gf_compute_gen (size_first guard_reduce : bool) (g : nat) (tl : tols) (clear : bool) (freqs : list (K * K * K)) (s : gf_st)
   : outcome (list K * gf_st) :=
   match g_status s with
   | Constructed => Throws 2                                                      (* cpp:156 *)
   | Computed => Done ([], s)                                                     (* cpp:157 *)
   | Prepared =>
-    let m_data0 : list K := if fixed then repeat 0 (length freqs) else [] in     (* cpp:155 *)
+    let m_data0 : list K := if size_first then repeat 0 (length freqs) else [] in   (* cpp:155 *)
     if negb (g_vanishing s) then                                                 (* cpp:158 *)
       let fill := negb (Nat.eqb (length freqs) 0) in                             (* cpp:161 *)
       let m_data := repeat 0 (length freqs) in                                   (* cpp:163 *)
       bind (run_parts g tl clear fill freqs (g_parts s) m_data) (fun pd =>       (* cpp:164-167 *)
-      if negb fixed && match snd pd with [] => true | _ => false end then OOB    (* cpp:176 &m_data[0] *)
+      if negb guard_reduce && match snd pd with [] => true | _ => false end then OOB    (* cpp:176 &m_data[0] *)
       else Done (snd pd, {| g_status := Computed; g_parts := fst pd; g_vanishing := g_vanishing s |}))   (* cpp:177-188 *)
     else Done (m_data0, {| g_status := Computed; g_parts := g_parts s; g_vanishing := g_vanishing s |})   (* cpp:187-188 *)
   end.
+(** the source as it is now *)
+Definition gf_compute := gf_compute_gen compute_sizes_table_before_vanishing_test compute_guards_empty_reduce.
 
 End Chi.
